@@ -50,7 +50,7 @@ def run(R):
     R.need(bc_ is not None, "anchor vanished: BatchBase._compute")
     guarded = False
     why = "no boolean field is set before the flush body is entered"
-    for owner in (bc_, fl):
+    for owner in (bc_,):        # (flush() is not the only way in: batch.value() / batch.error() compute the batch without it)
         ocfg = cfg_of(owner)
         entries = [n for n, c in kit.call_sites(owner, lambda c: q.call_name(c) in ("self._flush",) or (owner is fl and q.call_name(c) in ("self.error", "self._compute")))]
         sets_ = {}
@@ -78,6 +78,17 @@ def run(R):
             "nothing stops the flush body from being entered again while it runs (%s): item.value() on an unset item of the batch being flushed - from the "
             "body, or from a subscriber of an item it has just set - calls flush() again, the body runs twice for one flush, and the nested run's "
             "FutureIsAlreadyComputed becomes the batch's outcome" % why)
+    # ... and flush() releases the items only after the computing call has returned: on the exceptional way out (a nested request that
+    # was refused with BatchingError comes through here while the outer flush is still setting items) they stay
+    clears_ = [n for n, c in kit.call_sites(fl, lambda c: q.src(c.func) in ("self.items.clear",)) ] + \
+        [n for n in cfg.nodes if n.kind == "stmt" and isinstance(n.ast, (ast.Assign, ast.Delete)) and "self.items" in q.src(n.ast).split("=")[0]]
+    exc_starts = [e.dst for cn in comps_ for e in cfg.out_edges(cn.id, X) if e.implicit or e.label == "exc"]
+    pcl = cfg.find_path(exc_starts, clears_, X) if clears_ and exc_starts else None
+    R.check(pcl is None, "C11.FLUSH-NORAISE", fl.qualname + ":items-kept-on-failure", R.site(fl),
+            "flush() empties self.items only after the batch has been computed",
+            "flush() empties self.items also when the computing call raised (e.g. in a finally clause): a nested flush() that is refused while the batch is being "
+            "flushed clears the item list under the running flush body - the remaining items are never completed and the batch announces its completion before them",
+            cfg.fmt_path(pcl) if pcl else None)
     # ---- IS-FLUSHED means finished
     isf = bb.methods.get("is_flushed")
     R.need(isf is not None, "anchor vanished: BatchBase.is_flushed")
